@@ -390,14 +390,14 @@ class _AnonStruct(object):
     pass
 
 
-_anon_cache = {}
-
-
 def _anon_struct(f):
+    """The anonymous `bits:` block of field f as a bits Struct (cached on the field object itself)."""
     from . import embast
-    if id(f) not in _anon_cache:
-        _anon_cache[id(f)] = embast.Struct("<anon>", "bits", (), f.type[1])
-    return _anon_cache[id(f)]
+    st = getattr(f, "_anon_struct", None)
+    if st is None:
+        st = embast.Struct("<anon>", "bits", (), f.type[1])
+        f._anon_struct = st
+    return st
 
 
 # ------------------------------------------------------------------ semantics
